@@ -75,11 +75,16 @@ type Exec struct {
 	noteSet   map[string]bool
 	safeSeq   map[string]int
 	arrBorn   map[string]int
+	needElemAxiom bool
 	frameSeq  int
 	globals   map[string]*Term
 	rootPre   *State
 	rootEnvNames map[string]TV
 	needSeqCmp bool
+	catParts  map[string][2]*Term // seqcat term -> its two operands (for associativity instances)
+	rawSel    *ESel               // spec evaluator: method call whose struct result is field-selected at once
+	rawDone   bool
+	revealing map[string]bool // opaque spec functions whose definition axiom is being built
 }
 
 func NewExec(p *Program, cs *ContractSet, cfg Config) *Exec {
@@ -101,6 +106,7 @@ func (x *Exec) reset() {
 	x.allocCount = 0
 	x.heap0 = map[string]*Term{}
 	x.needSeqAxioms = false
+	x.catParts = map[string][2]*Term{}
 	x.axioms = nil
 	x.obls = nil
 	x.paths = 0
@@ -110,6 +116,7 @@ func (x *Exec) reset() {
 	x.noteSet = map[string]bool{}
 	x.safeSeq = map[string]int{}
 	x.arrBorn = map[string]int{}
+	x.needElemAxiom = false
 	x.globals = map[string]*Term{}
 	x.allocBase = x.D.Const("|alloc0|", SInt)
 }
@@ -695,7 +702,15 @@ func (x *Exec) havocLoopHeap(fr *Frame, st *State, li *loopInfo) {
 					nonLocal = true
 				}
 			case *ssa.MapUpdate:
-				all = true
+				// a map update writes the domain/value arrays of that map type only
+				if mt, ok := i.Map.Type().Underlying().(*types.Map); ok {
+					n := mapPrefix(mt)
+					names[n] = true
+					writesOld[n] = true
+					nonLocal = true
+				} else {
+					all = true
+				}
 			case ssa.CallInstruction:
 				if bi, ok := i.Common().Value.(*ssa.Builtin); ok && (bi.Name() == "append" || bi.Name() == "copy") {
 					// append writes a freshly allocated backing array (model: always reallocates);
@@ -762,7 +777,7 @@ func (x *Exec) havocLoopHeap(fr *Frame, st *State, li *loopInfo) {
 		}
 		x.fresh++
 		for pfx := range names {
-			st.ghost["$havoc:"+pfx] = fmt.Sprintf("l%d", x.fresh)
+			x.recordLoopHavoc(st, pfx, fmt.Sprintf("l%d", x.fresh), !writesOld[pfx])
 		}
 		if nonLocal {
 			x.bumpEpoch(st)
